@@ -1107,6 +1107,7 @@ def run(ctx: Ctx):
                      ["gamma_factor", "evaluate_probe", "aberration_surface_cartesian_gradients",
                       "aberration_surface_polar_gradients", "spatial_frequencies", "soft_aperture"])
     ctx.hash_sources("diffractive_imaging/ptycho_utils.py", ["SimpleBatcher"])
+    ctx.hash_sources("diffractive_imaging/direct_ptycho_utils.py", ["_crop_corner_centered_mask"])
     ctx.cov["rule"] = (
         "cases: (geometry: detector grid 4..7 x 4..7 with 5..21 BF pixels around the origin, scan 4x10..9x10 incl. "
         "non-square and odd, samplings, energy, rotation, aperture cutting through or outside the mask; config: "
@@ -1134,6 +1135,8 @@ def run(ctx: Ctx):
     ctx.proofs_or_violation()
     _torch()
     run_oracles(ctx)
+    from .. import ext_C04
+    ext_C04.run_ext(ctx)
     check_index_map(ctx)
     check_skeleton(ctx)
 
@@ -1170,13 +1173,23 @@ def replay(ctx: Ctx, path):
         elif which == "history":
             found, err = oracle_history(ctx, geo, cfg, rp["calls"])
         else:
-            print("unknown oracle", which)
-            return 0
+            from .. import ext_C04
+            rc = ext_C04.replay_ext(ctx, rp)
+            if rc is None:
+                print("unknown oracle", which)
+                return 0
+            return rc
         print("relative difference:", err)
         for key, what, _ in found:
             print("FAILS:", key, "-", what)
         if not found:
             print("property holds on this case")
         return 1 if found else 0
+    if rp.get("kind") == "ext":
+        _torch()
+        from .. import ext_C04
+        rc = ext_C04.replay_ext(ctx, rp)
+        if rc is not None:
+            return rc
     print("nothing to replay for kind %r (proof obligation / machinery): re-run ./check C04" % rp.get("kind"))
     return 0
